@@ -268,3 +268,29 @@ func TestHuntDisabledOutputOfStepThatNeverStarts(t *testing.T) {
 		fmt.Println("   VIOL", x.Rule, x.Shape, x.Parts, "known=", knownID(x))
 	}
 }
+
+// TestHuntStoppedStepIgnoringCancel (VERIF_HUNT=9): shape A with a victim that ignores the cancel signal and
+// an output that waits for its crash report.
+func TestHuntStoppedStepIgnoringCancel(t *testing.T) {
+	if os.Getenv("VERIF_HUNT") != "9" {
+		t.Skip()
+	}
+	LoadSites(os.Getenv("VERIF_SITES"))
+	loadKnown(os.Getenv("VERIF_KNOWN"))
+	p := &ir.Program{Subs: map[string]*ir.Program{}}
+	c10 := int64(10)
+	victim := &ir.Step{ID: "victim", Kind: "plugin", In: []ir.Field{ir.F("a", ir.Lit(int64(2))), ir.F("mode", ir.Lit("hang")), ir.F("on_cancel", ir.Lit("ignore"))}, StopIf: ir.StepRef("stopper", "outputs", ""), Closure: &c10}
+	stopper := &ir.Step{ID: "stopper", Kind: "plugin", In: []ir.Field{ir.F("a", ir.Lit(int64(3))), ir.F("dur", ir.Lit(int64(5)))}, WaitFor: ir.StepRef("victim", "starting", "started")}
+	p.Steps = []*ir.Step{victim, stopper}
+	p.Outputs = []ir.Output{{ID: "success", E: ir.Obj(ir.F("last", ir.StepRef("stopper", "outputs", "success", "a")), ir.F("victim", ir.StepRef("victim", "crashed", "error")))}}
+	c := &Case{Property: "C01", Profile: "hunt", Class: "S1", Program: p, Doc: ir.Doc{"n": int64(1), "tag": "t", "flag": false}}
+	c.Policy = simrt.PolicySpec{Kind: "fifo", Seed: 1}
+	r := RunCase(t, c, true)
+	fmt.Println("PREPARE:", r.PrepareErr, "OUTCOME:", r.Outcome, r.Stuck)
+	if len(r.Clients) > 0 {
+		fmt.Println("  returned", r.Clients[0].Returned, "err", r.Clients[0].ErrClass, r.Clients[0].Err, "out", r.Clients[0].OutputID)
+	}
+	for _, x := range Props["C01"].Check(c, r) {
+		fmt.Println("   VIOL", x.Rule, x.Shape, x.Parts, "known=", knownID(x))
+	}
+}
